@@ -369,7 +369,9 @@ impl Space for Forms {
         ctx.transitions += 2;
         let m0 = map_back(&v0, &r0, &base);
         let m1 = map_back(&v, &r1, &base);
-        let planted_base = self.src.devs_of(id / self.ntf()).is_empty();
+        // (a base with data of 1e21 is strongly infeasible on paper, but no verdict class is demanded of a run at
+        // that magnitude: only contradictions count, as for deviated instances)
+        let planted_base = self.src.devs_of(id / self.ntf()).is_empty() && !self.src.minus_inf_row;
         if planted_base {
             // a planted strictly feasible primal-dual pair is well-posed by construction:
             // every equivalent form must reach the same verdict class
@@ -850,6 +852,10 @@ pub fn spaces(tier: &str, _seed: u64) -> Vec<Box<dyn Space>> {
         if thorough {
             v.push(Box::new(Forms { src: Planted::new(l.clone(), *n, s0.clone(), Judge::C04, 0, xids, "default"), pairs: true }));
         }
+    }
+    // strongly infeasible bases: one row reads 0'x <= -1e21 (beyond "minus infinity"); every form must say so
+    for (l, n) in [(vec![NN(3), SOC(3)], 3usize), (vec![Zero(1), NN(2), Exp], 3)] {
+        v.push(Box::new(Forms { src: Planted::new(l, n, s0.clone(), Judge::C04, 0, vec![5], "default").with_minus_inf_row(), pairs: false }));
     }
     for r in repeat_spaces(tier) {
         v.push(Box::new(r));
